@@ -150,15 +150,15 @@ CHECKS = {
         design="5-C03"),
     "C15": dict(
         engine="E2-handler",
-        technique="Coq proof (grouped-by-live-invocation invariant of the pending store over all well-formed traces and all opening choices; at-most-once, not-late, in-extent, drained, thread independence; top-only discipline refuted) + in-Coq correspondence with the real handler driven by real threads",
-        text="8 Coq theorems over Callbacks.v: for every well-formed event trace of a thread and every choice of events that open "
+        technique="Coq proof over functions REGENERATED from /repo/src by a fail-closed Python-ast translator (pure.py) and proved equal to the model + Coq proof (grouped-by-live-invocation invariant of the pending store over all well-formed traces and all opening choices; at-most-once, not-late, in-extent, drained, thread independence; top-only discipline refuted) + in-Coq correspondence with the real handler driven by real threads",
+        text="9 Coq theorems over Callbacks.v: for every well-formed event trace of a thread and every choice of events that open "
              "contexts, each context is completed at most once and strictly after it was opened; a pending context always "
              "belongs to a running invocation and the return of an invocation completes everything it opened; a completion "
              "happens at an event of an invocation with the opener's file/function name inside the opener's extent; when the "
              "outermost invocation has returned nothing is pending and every context was completed exactly once; threads' "
              "stores evolve independently under any interleaving; the pre-repair top-only rule is refuted by a checked witness. "
              "Tied to the code by 1-3 real threads delivering generated traces (same-named nesting, caught/propagating "
-             "exceptions) to the real handler with span/capture tracepoints; opened/completed contexts per event compared in Coq.",
+             "exceptions) to the real handler with span/capture tracepoints; opened/completed contexts per event compared in Coq. Tie T2: CallbackContext.at_location and the BODY of the loop of __process_call_backs are translated from source on every run (coq/gen/PCallbacks.v); the loop over the translated body is proved equal to the model's complete for every pending stack (C15_the_code_loop_is_the_model).",
         note="Trusted: Coq kernel+VM; harness; CPython's event grammar per thread. Known finding: a capture completed by a "
              "same-named nested invocation carries that invocation's value (name matching).",
         design="5-C15"),
